@@ -3,7 +3,8 @@ import json, os
 from lib import vf
 from lib import trxd as T
 from gen import trxd_consts
-from props import c13_rand_part as rand      # part "rand": the message generators rand_* of data_msg.py
+from props import c13_rand_part as rand
+from props import msg_reuse_part as reuse      # part "rand": the message generators rand_* of data_msg.py
 
 ID = "C13"
 LEVEL = "proof"
@@ -207,6 +208,15 @@ def search(run, corr, deep):
                   "spec_in_range": T.in_range_tx(mm) if kind == "tx" else T.in_range_rx(mm),
                   "failing_cases_in_this_run": len(fails)})
         found += run.report_witness(w)
+    # history on ONE message object: refusal / emission follows the fields as they are NOW
+    rf = reuse.run(run, corr, cases(run)[:: 7], False, "C13")
+    seen = set()
+    for f in rf:
+        key = (f[0], f[1], f[6].split()[0], f[7].split()[0])
+        if key in seen or len(seen) >= 3:
+            continue
+        seen.add(key)
+        found += run.report_witness(reuse.witness(f, len(rf)))
     return found + rand.search(run, corr, deep)
 
 
@@ -217,6 +227,11 @@ def replay(run, path):
         w = v.get("witness")
         if not w:
             print("replay: no concrete input recorded (%s)" % json.dumps(v.get("broken"))[:400])
+            continue
+        if w.get("kind") == "message-object-reused":
+            still, text = reuse.replay(w)
+            print(text)
+            bad += still
             continue
         if w.get("part") == "rand":
             still, text = rand.replay(run, w)
